@@ -169,6 +169,13 @@ class Ctx:
                 self.discharged += 1
         if p.returncode != 0 and not problems:
             problems.append('audit file does not elaborate: ' + out[-400:])
+        # thorough tier: re-check the compiled proof modules with the toolchain's independent checker
+        if self.thorough and self.lean_modules:
+            lc = subprocess.run(['lake', 'env', 'leanchecker'] + list(self.lean_modules), cwd=LEAN_DIR,
+                                stdout=subprocess.PIPE, stderr=subprocess.STDOUT, text=True)
+            self.extra['leanchecker'] = {'modules': list(self.lean_modules), 'exit': lc.returncode}
+            if lc.returncode != 0:
+                problems.append('leanchecker rejects the compiled modules: ' + lc.stdout[-400:])
         # source grep
         for root, _, files in os.walk(LEAN_DIR):
             if '.lake' in root:
